@@ -480,13 +480,28 @@ def run_check(modname: str, tier: str, seed: int, replay: Optional[str] = None) 
     unattributed = buckets
 
     budget = 25.0 if tier == "quick" else 120.0
+    regions_parent = getattr(mod, "REGIONS", {})
     global SHRINK_STRINGS
     SHRINK_STRINGS = bool(getattr(mod, "SHRINK_STRINGS", False))   # tag-like strings must not be mangled by default
     for sig, b in sorted(unattributed.items()):
         ln, case, detail = b["cases"][0]
 
         def still_fails(c, sig=sig):
-            return any(fl.signature == sig for fl in judge_guarded(mod, c, 10.0))
+            # the shrunk case must keep the signature AND stay outside the regions of active known findings, otherwise the
+            # replay file would show an attributed case instead of the violation
+            for fl in judge_guarded(mod, c, 10.0):
+                if fl.signature != sig:
+                    continue
+                owned = False
+                for fd in active:
+                    if fl.clause in fd["clauses"]:
+                        try:
+                            owned = owned or bool(regions_parent[fd["region"]](c))
+                        except Exception:  # noqa: BLE001
+                            owned = True
+                if not owned:
+                    return True
+            return False
         try:
             small, tried = shrink(case, still_fails, budget)
         except BaseException as e:  # noqa: BLE001
